@@ -26,11 +26,19 @@ def norm(e):
 # ------------------------------------------------------------------------------------------------
 def matmul_exception(f, node):
     """modes[ordering[k]] in evaluate_matrix_multiplication_operator is accepted only while dominated by
-    an order == 1|2 test on the same operand (every permutation of <= 2 elements is its own inverse)."""
-    txt = u(node.slice) if isinstance(node, ast.Subscript) else u(node)
-    m = re.match(r"(left|right)\.format\.ordering\[\d\]", txt)
+    an order == 1|2 test on the same operand (every permutation of <= 2 elements is its own inverse).
+    Returns NotImplemented when the construct is not of that shape (ordinary typing applies)."""
+    sl = node.slice if isinstance(node, ast.Subscript) else node
+    if not (isinstance(sl, ast.Subscript) and isinstance(sl.value, ast.Attribute) and sl.value.attr == "ordering"):
+        return NotImplemented
+    base = sl.value.value  # <operand>.format, or a local bound once to it
+    txt = u(base)
+    if isinstance(base, ast.Name):
+        org = _origin_any(f.node, base.id)
+        txt = org if org is not None else txt
+    m = re.fullmatch(r"(left|right)\.format", txt)
     if not m:
-        return "not an ordering[k] subscript"
+        return NotImplemented
     who = m.group(1)
     tests = [u(t) for t in arm_tests(f.node, node)]
     ok = any(re.search(rf"{who}\.order == [12]\b", t) for t in tests)
@@ -39,11 +47,14 @@ def matmul_exception(f, node):
     return None
 
 
+def _origin_any(fn, name):
+    vals = [n.value for n in ast.walk(fn) if isinstance(n, ast.Assign) and len(n.targets) == 1 and isinstance(n.targets[0], ast.Name) and n.targets[0].id == name]
+    texts = {u(v) for v in vals}
+    return texts.pop() if len(texts) == 1 else None
+
+
 def axis_exceptions():
-    exc = {}
-    for who, k in (("left", 0), ("right", 1)):
-        exc[(f"{T_MOD}.evaluate_matrix_multiplication_operator", f"{who}.format.ordering[{k}]")] = matmul_exception
-    return exc
+    return {f"{T_MOD}.evaluate_matrix_multiplication_operator": matmul_exception}
 
 
 # ------------------------------------------------------------------------------------------------
@@ -715,6 +726,63 @@ def rule_call_validation(ctx, ix):
         ctx.fail("C10.must-pass-through", key, "TensorMethod.__init__ does not reject target indexes missing from the right-hand side (KeyError at call time)")
 
 
+def _parse_assignment_text(text):
+    lhs, rhs = text.split("=")
+    occ = re.findall(r"(\w+)\(([\w,]*)\)", rhs)
+    t = re.match(r"\s*(\w+)\(([\w,]*)\)", lhs)
+    return (t.group(1), tuple(_split(t.group(2)))), [(n, tuple(_split(ix_))) for n, ix_ in occ]
+
+def call_scenario(text, participant_order=0, evaluate=None):
+    from . import symeval as S
+
+    (tname, tix), occ = _parse_assignment_text(text)
+    orders = {}
+    for n, ixs in occ:
+        orders.setdefault(n, len(ixs))
+    parts = {}
+    for n, ixs in occ:
+        for d, i in enumerate(ixs):
+            parts.setdefault(i, [])
+            if (n, d) not in parts[i]:
+                parts[i].append((n, d))
+    if participant_order == 1:
+        parts = {i: list(reversed(v)) for i, v in parts.items()}
+    if participant_order == 2:
+        parts = {i: v[1:] + v[:1] for i, v in parts.items()}
+    in_formats = {n: S.make_format((S.DENSE,) * o, tuple(range(o))) for n, o in orders.items()}
+    out_format = S.make_format((S.COMPRESSED,) * len(tix), tuple(range(len(tix))))
+    formats = {tname: out_format, **in_formats}
+
+    def bind(*args, **kwargs):
+        if args or set(kwargs) != set(in_formats):
+            raise S.Raised("TypeError")
+        return S.Obj("BoundArguments", arguments={n: kwargs[n] for n in in_formats})
+
+    if evaluate is None:
+
+        def evaluate(*args):
+            raise S.KernelEntered(args)
+
+    expression = S.Obj("Expression", index_participants=lambda: {i: tuple(v) for i, v in parts.items()})
+    assignment = S.Obj("Assignment", expression=expression, target=S.Obj("TargetTensor", name=tname, indexes=tix))
+    self_ = S.Obj(
+        "TensorMethod",
+        signature=S.Obj("Signature", bind=bind),
+        _input_formats=in_formats,
+        _output_format=out_format,
+        _output_name=tname,
+        _problem=S.Obj("Problem", assignment=assignment, formats=formats),
+        _evaluate=evaluate,
+    )
+    tensors = {}
+    for n, o in orders.items():
+        t = S.make_tensor(n, (S.DENSE,) * o, tuple(range(o)))
+        t.attrs["cffi_tensor"] = S.Obj("cffi", of=n)
+        tensors[n] = t
+    return self_, tensors, parts, formats
+
+
+
 def rule_call_semantics(ctx, ix):
     """TensorMethod.__call__ is evaluated abstractly (vf/srules/symeval.py) on symbolic arguments for a
     set of assignments: the kernel may be entered only on paths where every pair of dimensions sharing
@@ -728,56 +796,8 @@ def rule_call_semantics(ctx, ix):
     # private helpers of the module (extracted validation steps) are interpreted too
     MG = {f.name: f.node for q, f in ix.funcs.items() if f.module == tm_mod and q == f"{tm_mod}.{f.name}"}
 
-    def parse(text):
-        lhs, rhs = text.split("=")
-        occ = re.findall(r"(\w+)\(([\w,]*)\)", rhs)
-        t = re.match(r"\s*(\w+)\(([\w,]*)\)", lhs)
-        return (t.group(1), tuple(_split(t.group(2)))), [(n, tuple(_split(ix_))) for n, ix_ in occ]
-
-    def scenario(text, participant_order=0):
-        (tname, tix), occ = parse(text)
-        orders = {}
-        for n, ixs in occ:
-            orders.setdefault(n, len(ixs))
-        parts = {}
-        for n, ixs in occ:
-            for d, i in enumerate(ixs):
-                parts.setdefault(i, [])
-                if (n, d) not in parts[i]:
-                    parts[i].append((n, d))
-        if participant_order == 1:
-            parts = {i: list(reversed(v)) for i, v in parts.items()}
-        if participant_order == 2:
-            parts = {i: v[1:] + v[:1] for i, v in parts.items()}
-        in_formats = {n: S.make_format((S.DENSE,) * o, tuple(range(o))) for n, o in orders.items()}
-        out_format = S.make_format((S.COMPRESSED,) * len(tix), tuple(range(len(tix))))
-        formats = {tname: out_format, **in_formats}
-
-        def bind(*args, **kwargs):
-            if args or set(kwargs) != set(in_formats):
-                raise S.Raised("TypeError")
-            return S.Obj("BoundArguments", arguments={n: kwargs[n] for n in in_formats})
-
-        def evaluate(*args):
-            raise S.KernelEntered(args)
-
-        expression = S.Obj("Expression", index_participants=lambda: {i: tuple(v) for i, v in parts.items()})
-        assignment = S.Obj("Assignment", expression=expression, target=S.Obj("TargetTensor", name=tname, indexes=tix))
-        self_ = S.Obj(
-            "TensorMethod",
-            signature=S.Obj("Signature", bind=bind),
-            _input_formats=in_formats,
-            _output_format=out_format,
-            _output_name=tname,
-            _problem=S.Obj("Problem", assignment=assignment, formats=formats),
-            _evaluate=evaluate,
-        )
-        tensors = {}
-        for n, o in orders.items():
-            t = S.make_tensor(n, (S.DENSE,) * o, tuple(range(o)))
-            t.attrs["cffi_tensor"] = S.Obj("cffi", of=n)
-            tensors[n] = t
-        return self_, tensors, parts, formats
+    parse = _parse_assignment_text
+    scenario = call_scenario
 
     def report(key, problems):
         ctx.instance("C10.call-semantics")
@@ -1052,6 +1072,8 @@ def rule_operator_semantics(ctx, ix):
     ctx.rule("C11.operator-semantics", "synthesised assignment, shape guard and output format of every operator case (abstract evaluation over all format metadata up to order 3)", min_instances=500)
     fb = ix.func(f"{T_MOD}.evaluate_binary_operator").node
     fm = ix.func(f"{T_MOD}.evaluate_matrix_multiplication_operator").node
+    # private helpers of tensor.py (an extracted format rule, say) are interpreted too
+    TG = {f.name: f.node for q, f in ix.funcs.items() if f.module == T_MOD and q == f"{T_MOD}.{f.name}" and f.name not in ("evaluate_tensora", "evaluate")}
     natural = lambda t: t.attrs["format"].attrs["ordering"] == tuple(range(t.attrs["order"]))  # noqa: E731
 
     def report(key, problems):
@@ -1083,7 +1105,7 @@ def rule_operator_semantics(ctx, ix):
                 right = S.make_tensor("right", rm, ro)
                 key = f"tensor.py:evaluate_binary_operator:{describe(left)} {op} {describe(right)}"
                 problems = []
-                for assume, (kind, val) in S.explore(fb, [left, right, op]):
+                for assume, (kind, val) in S.explore(fb, [left, right, op], globals_=TG):
                     differ = [k for k, v in assume.items() if v is False]
                     if kind == "uninterpretable":
                         problems.append(f"operator code not interpretable: {val}")
@@ -1136,7 +1158,7 @@ def rule_operator_semantics(ctx, ix):
                     args = [t, sc, op] if side == "left" else [sc, t, op]
                     key = f"tensor.py:evaluate_binary_operator:{describe(args[0])} {op} {describe(args[1])}"
                     problems = []
-                    for assume, (kind, val) in S.explore(fb, args):
+                    for assume, (kind, val) in S.explore(fb, args, globals_=TG):
                         if kind != "return" or not isinstance(val, S.Call):
                             problems.append(f"outcome {kind} {val!r} instead of an evaluation")
                             continue
@@ -1162,7 +1184,7 @@ def rule_operator_semantics(ctx, ix):
                     report(key, problems)
     # ---- unsupported operands
     for args, label in (([S.Obj("Real"), S.Obj("Real"), "+"], "number + number"), ([S.Obj("Other"), S.make_tensor("right", (), ()), "*"], "other * tensor")):
-        outs = list(S.explore(fb, args))
+        outs = list(S.explore(fb, args, globals_=TG))
         problems = [] if all(k == "return" and v is S.NOT_IMPLEMENTED for _, (k, v) in outs) else [f"outcome {outs}"]
         report(f"tensor.py:evaluate_binary_operator:{label} -> NotImplemented", problems)
     # ---- matrix multiplication
@@ -1181,7 +1203,7 @@ def rule_operator_semantics(ctx, ix):
             right = S.make_tensor("right", rm, ro)
             key = f"tensor.py:evaluate_matrix_multiplication_operator:{describe(left)} @ {describe(right)}"
             problems = []
-            for assume, (kind, val) in S.explore(fm, [left, right]):
+            for assume, (kind, val) in S.explore(fm, [left, right], globals_=TG):
                 if kind == "uninterpretable":
                     problems.append(f"operator code not interpretable: {val}")
                     continue
@@ -1219,7 +1241,7 @@ def rule_operator_semantics(ctx, ix):
                 if fmt != want:
                     problems.append(f"output format `{fmt}`: the modes of the operands' outer dimensions give `{want}`")
             report(key, problems)
-    outs = list(S.explore(fm, [S.Obj("Other"), S.make_tensor("right", (S.DENSE,), (0,))]))
+    outs = list(S.explore(fm, [S.Obj("Other"), S.make_tensor("right", (S.DENSE,), (0,))], globals_=TG))
     report(
         "tensor.py:evaluate_matrix_multiplication_operator:other @ tensor -> NotImplemented",
         [] if all(k == "return" and v is S.NOT_IMPLEMENTED for _, (k, v) in outs) else [f"outcome {outs}"],
